@@ -22,6 +22,8 @@ BAG = {
     "authzrpc": '<<"join","join","reg","reg","call","call","call","inverr","inverr","inverr","yield","cancel","leave">>',
     "stallkill": '<<"join","reg","reg","sub","sub","call","call","stall","stall","pub","pub","pub","ckill","ckill","adv","resume","yield">>',
     # a script (the first two inputs are joins anyway): a callee that also subscribes is called, stops reading, its queue fills, ...
+    # a subscriber stops reading, its queue fills, it is killed through the meta API; everybody else goes on
+    "killstall": '<<"join","join","join","sub","wsub","stall","pub","pub","pub","kill","msess","pub","adv","msess","leave">>',
     "stallseq": '<<"join","join","reg","sub","call","stall","pub","pub","ckill","call","msess","adv","resume","yield","pub","cancel","adv","leave">>',
     # a caller stops reading, its callee yields (held back in the retry loop), ...
     "retryseq": '<<"join","join","join","reg","call","stallc","yield","yield","yield","pub","msess","adv","resume","call","yield","leave">>',
@@ -118,13 +120,16 @@ PROPS = {
                      dict(bag="stallburst", depth=16, quick=100, thorough=1500, mode="stall"),
                      dict(bag="stallkill", depth=18, quick=100, thorough=2000, mode="stall"),
                      dict(bag="stallseq", depth=16, quick=120, thorough=2000, mode="stall", scripted=True),
+                     dict(bag="killstall", depth=15, quick=40, thorough=800, mode="stall", scripted=True),
                      dict(bag="burstrpc", depth=10, quick=120, thorough=1500)],
                 classes=["sess", "pubsub", "meta", "rpcreply", "rpcroute", "rpcintr", "snap"]),
     "C08": dict(family="core",
                 conc=dict(inv=["Ordered"], devs={"DevAsyncPublish": "Ordered"}),
                 gen=[dict(bag="burst", depth=14, quick=250, thorough=3000),
                      dict(bag="burstrpc", depth=12, quick=160, thorough=2000),
-                     dict(bag="burstslow", depth=8, quick=40, thorough=400)],
+                     dict(bag="burstslow", depth=8, quick=40, thorough=400),
+                     # bursts towards reading subscribers whose queues are smaller than the burst: what arrives is still in order
+                     dict(bag="burst", depth=12, quick=80, thorough=1200, mode="stall")],
                 classes=["pubsub", "rpcreply", "rpcroute"]),
     "C06": dict(family="core", crashpoints=True,
                 conc=dict(inv=["NoPanic", "QuietAfterClose", "ToldOrClosed"], props=["CloseReturns"],
